@@ -310,7 +310,10 @@ impl DIDUrl {
     let url: RelativeDIDUrl = {
       let mut url: RelativeDIDUrl = RelativeDIDUrl::new();
       url.set_path(Some(did_url.path()))?;
-      url.set_query(did_url.query())?;
+      // `set_query` ignores one leading '?': hand the query over with its delimiter, or a query that itself
+      // begins with '?' would lose that character.
+      let query: Option<String> = did_url.query().filter(|query| !query.is_empty()).map(|query| format!("?{query}"));
+      url.set_query(query.as_deref())?;
       url.set_fragment(did_url.fragment())?;
       url
     };
